@@ -81,7 +81,7 @@ def run(R):
                              dict(package=p["dir"], definitions=a, generated=p["generated_encoders"]))
     cc.prove(R)
     if not R.quick:
-        R.coqchk("Codec", ["Codec.SchemasWf", "Codec.Theorems13", "Codec.LengthExact", "Codec.WireThms", "Codec.WirePlan", "Codec.Tmpl"])
+        R.coqchk("Codec", ["Codec.SchemasWf", "Codec.Theorems13", "Codec.LengthExact", "Codec.WireThms", "Codec.WirePlan", "Codec.Tmpl", "Codec.Nested"])
     b = cc.build(R, pkgs)
     if b is None:
         return R.finish()
